@@ -9,8 +9,9 @@ import sys
 from . import build, checks
 
 
-def run_seeds(binp, pid, lo, hi, gomax, extra=None):
+def run_seeds(binp, pid, lo, hi, gomax, extra=None, env=None):
     e = dict(os.environ)
+    e.update(env or {})
     e["GOMAXPROCS"] = str(gomax)
     e.pop("VERIF_MAP", None)
     p = subprocess.run([binp, "-prop", pid, "-seeds", "%d:%d" % (lo, hi)] + (extra or []), stdout=subprocess.PIPE, stderr=subprocess.PIPE, text=True, env=e, timeout=3600)
@@ -26,10 +27,26 @@ def run_seeds(binp, pid, lo, hi, gomax, extra=None):
     return out, p
 
 
-def selftest_prop(pid, kind, n=48, base=7000000, procs=30, extra=None):
+def selftest_prop(pid, kind, n=48, base=7000000, procs=30, extra=None, race=False):
     info = build.build_sim(kind)
     binp = info["bin"]
-    ref, p = run_seeds(binp, pid, base, base + n, 16, extra)
+    env = None
+    racedir = None
+    if race:
+        import tempfile
+        racedir = tempfile.mkdtemp(prefix="verif-race-", dir=build.SCRATCH)
+        env = {"GORACE": "log_path=%s/race halt_on_error=0 exitcode=0 history_size=5" % racedir}
+        n = 24
+    try:
+        return _selftest(binp, pid, n, base, procs, extra, env)
+    finally:
+        if racedir:
+            import shutil
+            shutil.rmtree(racedir, ignore_errors=True)
+
+
+def _selftest(binp, pid, n, base, procs, extra, env):
+    ref, p = run_seeds(binp, pid, base, base + n, 16, extra, env)
     if len(ref) != n:
         print("selftest %s: reference batch incomplete (%d/%d)\n%s" % (pid, len(ref), n, p.stderr[-2000:]))
         return False
@@ -46,7 +63,7 @@ def selftest_prop(pid, kind, n=48, base=7000000, procs=30, extra=None):
         lo = base
         while lo < base + n and done_procs < procs * 3:
             hi = min(base + n, lo + chunk)
-            got, p = run_seeds(binp, pid, lo, hi, gomax, extra)
+            got, p = run_seeds(binp, pid, lo, hi, gomax, extra, env)
             done_procs += 1
             for s in range(lo, hi):
                 runs += 1
@@ -65,5 +82,5 @@ def main(argv):
         cfg = checks.PROPS.get(pid)
         if not cfg:
             continue
-        ok = selftest_prop(pid, cfg["kind"], extra=cfg.get("args")) and ok
+        ok = selftest_prop(pid, cfg["kind"], extra=cfg.get("args"), race=bool(cfg.get("race"))) and ok
     return 0 if ok else 2
